@@ -53,6 +53,12 @@ def predictRt (rec : String) (f : Fmt) (kvs : KVs) : Option (Res KVs) :=
   | .query, "PinOptions" => (parseOpts kvs "").map fun po =>
       match queryRoundtrip po with | .ok q => .ok (showOpts q "") | .encErr => .encErr | .decErr => .decErr
   | .query, "AddParams" => predictAddParams kvs
+  | .snapshot, "Snapshot" => do
+      let n ← (← getF kvs "Pins#").toNat?
+      let pins ← (List.range n).mapM fun i => parsePin kvs ("Pins[" ++ toString i ++ "].")
+      let outs := snapshotRoundtrip pins
+      let idx := List.range outs.length
+      pure (.ok (("Pins#", toString outs.length) :: (idx.zip outs).flatMap fun (i, q) => showPinP ("Pins[" ++ toString i ++ "].") q))
   | .json, _ => some (predictTagged Gen.table true rec kvs)
   | .msgpack, _ => some (predictTagged Gen.table false rec kvs)
   | .msgpackraft, _ => some (predictTagged Gen.table false rec kvs)
